@@ -248,3 +248,66 @@ def unparse(n: ast.AST) -> str:
 
 def body_wo_doc(fn: ast.FunctionDef) -> List[ast.stmt]:
     return [s for s in fn.body if not _is_doc(s)]
+
+
+# ---------------------------------------------------------------------------
+# structural patterns with metavariables:  $x = any Name (bound consistently),  $$e = any expression
+
+
+def _pat(src: str) -> ast.AST:
+    import re as _re
+
+    s = _re.sub(r"\$\$(\w+)", r"__ANY_\1", src)
+    s = _re.sub(r"\$(\w+)", r"__MV_\1", s)
+    try:
+        return ast.parse(s, mode="eval").body
+    except SyntaxError:
+        return ast.parse(s).body[0]
+
+
+def ast_match(pattern: ast.AST, node: ast.AST, env: Optional[Dict[str, str]] = None) -> bool:
+    env = env if env is not None else {}
+    if isinstance(pattern, ast.Name):
+        if pattern.id.startswith("__ANY_"):
+            k = pattern.id
+            cur = ast.dump(node)
+            if k in env:
+                return env[k] == cur
+            env[k] = cur
+            return True
+        if pattern.id.startswith("__MV_"):
+            if not isinstance(node, ast.Name):
+                return False
+            if pattern.id in env:
+                return env[pattern.id] == node.id
+            env[pattern.id] = node.id
+            return True
+    if type(pattern) is not type(node):
+        return False
+    for f in pattern._fields:
+        if f in ("ctx", "lineno", "col_offset", "end_lineno", "end_col_offset", "kind", "type_comment"):
+            continue
+        a, b = getattr(pattern, f, None), getattr(node, f, None)
+        if isinstance(a, list):
+            if not isinstance(b, list) or len(a) != len(b):
+                return False
+            for x, y in zip(a, b):
+                if isinstance(x, ast.AST):
+                    if not ast_match(x, y, env):
+                        return False
+                elif x != y:
+                    return False
+        elif isinstance(a, ast.AST):
+            if not isinstance(b, ast.AST) or not ast_match(a, b, env):
+                return False
+        elif a != b:
+            return False
+    return True
+
+
+def ast_contains(root: ast.AST, pattern_src: str) -> bool:
+    pat = _pat(pattern_src)
+    for n in ast.walk(root):
+        if ast_match(pat, n, {}):
+            return True
+    return False
